@@ -138,7 +138,7 @@ SIZE_NAMES = ["nx_core", "nx_sol", "nx_pf", "nx_sol_inner", "nx_sol_outer", "ny_
               "ny_outer_lower_divertor", "ny_outer_upper_divertor", "ny_inner_sol", "ny_outer_sol"]
 
 
-def build(env, kind, guards, start_upper_outer=False, capture=None):
+def build(env, kind, guards, start_upper_outer=False, capture=None, pre=None):
     """kind in lsn usn cdn ldn udn. returns (eq, mesh, topo dict, sizes)"""
     eq = tok.TokamakEquilibrium.__new__(tok.TokamakEquilibrium)
     settings = {"y_boundary_guards": guards, "nx_inter_sep": 0 if kind in ("lsn", "usn", "cdn") else 1,
@@ -186,6 +186,8 @@ def build(env, kind, guards, start_upper_outer=False, capture=None):
     eq.coreRegionToRegion = lambda cr, npoints=100: {k: dict(v, points=[Point2D(0, 0), Point2D(0, 1)], psi=None) for k, v in cr.items()}
     eq.p_spl = None
     eq.Rmin, eq.Rmax, eq.Zmin, eq.Zmax = 0, 2, -2, 2
+    if pre is not None:
+        pre(eq)
     with contextlib.redirect_stdout(io.StringIO()):
         if len(eq.x_points) == 1:
             leg, corer, segments, conns = eq.describeSingleNull()
